@@ -644,14 +644,7 @@ impl CodegenContext {
                                     );
                                     opts.initial_pc = 0.into()
                                 }
-                                Err(_) => {
-                                    // Will be marked as undefined and retried later
-                                    log::trace!(
-                                        "Segment '{}' was not able to evaluate the 'start'",
-                                        name
-                                    );
-                                    opts.initial_pc = 0.into();
-                                }
+                                Err(e) => return Err(e),
                             }
                             if let Some(write) = extractor.try_get_i64(self, "write")? {
                                 opts.write = write != 0;
